@@ -1246,3 +1246,50 @@ kv_observe(ldb_t *db, const kack_t *acks, int nacks, kobs_t *o) {
   o->hash = vh_mix(kmodel_hash(&o->m), o->U);
 }
 
+
+
+/* ------------------------------------------------------------------ */
+/* recovery must not hand out the number of a log that is in the image */
+/* ------------------------------------------------------------------ */
+
+/* v = a crash image on which a recovery (ldb_open ...) has just run: its base snapshot is the image, its
+ * journal is what the recovery did.  A log created by the recovery must not carry the number of a
+ * write-ahead log present in the image (C13: file numbers are never reused for a different live file; the
+ * descriptor is exempt: lcdb, like LevelDB, fixes the new MANIFEST's number before it looks at the logs).
+ * Returns 1 and sets err on a clash. */
+int
+kv_recovery_number_clash(const vfs_t *v, const char *dbdir, char *err, size_t en) {
+  uint64_t logs[64];
+  int nlogs = 0, i, j;
+  size_t dl = strlen(dbdir);
+  for (i = 0; i < v->nbase && nlogs < 64; i++) {
+    const char *p = v->base[i].path;
+    size_t l = strlen(p);
+    if (strncmp(p, dbdir, dl) == 0 && p[dl] == '/' && !strchr(p + dl + 1, '/') && l > 4 && strcmp(p + l - 4, ".log") == 0)
+      logs[nlogs++] = strtoull(p + dl + 1, NULL, 10);
+  }
+  for (j = 0; j < v->njournal; j++) {
+    const vjent_t *e = &v->journal[j];
+    const char *p = e->path;
+    size_t l;
+    uint64_t n;
+    if ((e->kind != J_CREATE && e->kind != J_REPLACE) || !p)
+      continue;
+    l = strlen(p);
+    if (strncmp(p, dbdir, dl) != 0 || p[dl] != '/' || strchr(p + dl + 1, '/') || l < 5)
+      continue;
+    /* only a LOG named like an image log is judged: lcdb (like LevelDB) marks a log's number as used after it
+     * has replayed it, so a table written while replaying NNNNNN.log may be called NNNNNN.ldb; the two names
+     * never collide and the log is deleted once the recovery commits */
+    if (strcmp(p + l - 4, ".log") != 0)
+      continue;
+    n = strtoull(p + dl + 1, NULL, 10);
+    for (i = 0; i < nlogs; i++)
+      if (logs[i] == n) {
+        snprintf(err, en, "recovery creates %s although the crash image holds the write-ahead log %06llu.log: the number of a log still to be replayed was handed out again",
+                 p + dl + 1, (unsigned long long)n);
+        return 1;
+      }
+  }
+  return 0;
+}
